@@ -46,6 +46,12 @@ ASSUMPTIONS = [
     "one direction of lending is modelled (owner A, peer B); the other direction is the same code with roles exchanged; a "
     "message mixing hand-backs with the sender's own references, and references inside keyword arguments, occur in the "
     "baton scenarios only",
+    "`_handle_instancecheck` builds a temporary netref on the SERVING side's connection that carries the id pack of one of "
+    "that side's own objects; when it dies its `__del__` sends a release notice in the wrong direction (to the peer, for a "
+    "key the peer's table normally does not hold: answered with KeyError to an async request nobody reads). It changes no "
+    "count unless the peer's table holds the same id pack (both ends in one process and the same object lent both ways, or "
+    "an address coincidence) — the key-injectivity assumption above; isinstance() between proxies is not in the histories "
+    "(observed by the C07 builder on two honest ends)",
     "`Connection._last_traceback` (the debugging aid that keeps the frames, hence the locals, of the last exception a handler "
     "or a failed reply raised, until the next one) is not counted as 'the connection references the object': the harness "
     "clears it before liveness checks",
